@@ -317,6 +317,9 @@ func (m *Model) first(p *Pred, input string) {
 // Request predicts one request (persisted-engine semantics).
 func (m *Model) Request(input string) *Pred {
 	p := &Pred{}
+	// an engine that still has to run its pre-VM function stops right there when the session is terminated
+	// (before it looks at ResetOnEmptyInput)
+	stoppedByFirst := m.Cfg.First && m.A.Funcs["_first"] != nil && (m.FreshEngine || !m.firstDone) && m.Flags[fTERMINATE]
 	if len(input) <= 255 {
 		m.first(p, input)
 	}
@@ -328,6 +331,16 @@ func (m *Model) Request(input string) *Pred {
 			m.Pending = []codec.Ins{{Op: codec.MOVE, S1: m.Cfg.Root}}
 		}
 		return p
+	}
+	if m.Cfg.ResetOnEmptyInput && input == "" && len(m.Stack) > 0 && !stoppedByFirst {
+		// engine.Config.ResetOnEmptyInput: an empty input (a new dial-in) unwinds the session to nothing and enters
+		// the entry node again; flags set by the client stay, TERMINATE does not
+		m.Pending = []codec.Ins{{Op: codec.MOVE, S1: m.Cfg.Root}}
+		m.Stack = nil
+		m.Idx = 0
+		m.Scopes = []map[string]entry{{}}
+		m.Flags[fTERMINATE] = false
+		m.Flags[fDIRTY] = false
 	}
 	if len(m.Pending) == 0 {
 		m.Pending = []codec.Ins{{Op: codec.MOVE, S1: m.Cfg.Root}}
